@@ -1,29 +1,13 @@
 use proto_vulcan::prelude::*;
-use proto_vulcan::relation::always::always;
-macro_rules! go {
-    ($name:expr, |$q:ident| { $($body:tt)* }) => {{
-        let q = proto_vulcan_query!(|$q| { $($body)* });
-        proto_vulcan::verif::reset_steps();
-        let mut last = 0;
-        print!("{}: ", $name);
-        for (i, _r) in q.run().enumerate() {
-            if (i + 1) % 100 == 0 { use std::io::Write; std::io::stdout().flush().unwrap();
-                let s = proto_vulcan::verif::steps();
-                print!("{} ", s - last);
-                last = s;
-            }
-            if i >= 20000 { break; }
-        }
-        println!();
-    }};
-}
+use proto_vulcan::relation::clpfd::infd::infd;
+use proto_vulcan::relation::clpfd::diseqfd::diseqfd;
+use std::collections::BTreeMap;
 fn main() {
-    let h = std::thread::Builder::new().stack_size(std::env::var("STK").unwrap().parse::<usize>().unwrap()).spawn(|| {
-        go!("loop q==1", |q| { loop { q == 1 } });
-        go!("loop conde1", |q| { loop { conde { q == 1 } } });
-        go!("loop conde2", |q| { loop { conde { q == 1, q == 2 } } });
-        go!("conde always", |q| { conde { [always(), q == 1], [always(), q == 2] } });
-        go!("always conde", |q| { always(), conde { q == 1, q == 2 } });
-    }).unwrap();
-    h.join().unwrap();
+    let mut seen: BTreeMap<String, usize> = BTreeMap::new();
+    for _ in 0..64 {
+        let q = proto_vulcan_query!(|q| { |a, b| { infd(a, &[1, 2]), infd(b, &[1, 2]), diseqfd(a, b), q != a } });
+        let v: Vec<String> = q.run().map(|r| format!("{}", r)).collect();
+        *seen.entry(format!("{:?}", v)).or_insert(0) += 1;
+    }
+    println!("{:?}", seen);
 }
